@@ -14,6 +14,20 @@ SPECS = [
                              "S() == S0() + 'A<p><b>'"]},
              '*': {'ensures': ["raised('e1')"]}},
          serves=['C19']),
+    dict(id='S-Deferred-twice',
+         text='A<p tal:condition="e1"><b tal:content="???"/></p><i tal:condition="e2"><b tal:content="???"/></i>B',
+         options={'strict': False},
+         ensures=["not bool(val(1))", "not bool(val(2))"],
+         raises={
+             'ExpressionError': {
+                 'when': "bool(val(1)) or bool(val(2))",
+                 # the error belongs to the site that was reached, not to an equal-looking one
+                 'ensures': ["text(exc.token) == '???'",
+                             "not bool(val(1)) or exc.token.pos == template_pos('???')",
+                             "bool(val(1)) or exc.token.pos == template_rpos('???')",
+                             "token_now() == exc.token.pos"]},
+             '*': {'ensures': ["raised('e1') or raised('e2')"]}},
+         serves=['C19', 'C11']),
     dict(id='S-Strict-rejects', text=BAD, options={'strict': True},
          expect_error={'class': 'ExpressionError', 'token': '???'}, serves=['C19', 'C11']),
     dict(id='S-TextMode', text='a ${e1} $$ <b> &amp; x', cls='PageTextTemplate',
